@@ -8,8 +8,10 @@ open Scrapli Scrapli.Lifecycle
       -> close=<fixed|orig|other> open=<ok|other> enter=<ok|other> exit=<ok|other> telnet=<..> asynctelnet=<..> bio=<0|1> pmk=<0|1>
     run <stack> <kind>[+tcr] <tname> <bypass 0|1> <sink> <on_open> <on_close> <code src|fixed|orig> <history>
       hooks: none | ok | raise | d:<platform>      (d: = the generated default hook of that platform and stack)
-      history: ops joined by ';' ; op = <letter>[.<body letters>]/<events> ; letters O C X W ; body letters x c o r
-      events: '-' or comma separated  <k>[:eof:raw:cooked:ctrl:counter]  with k in o d s r a
+      history: ops joined by ';' ; op = <letter>[.<body letters>]/<events> ; letters O C X W ; body letters x c o r and
+               T E N A P V K Z (the body raises ScrapliTimeout / ConnectionError / NotOpened / AuthenticationFailed / PrivilegeError /
+               ValueError / a non-Exception BaseException / CancelledError)
+      events: '-' or comma separated  <k>[:eof:raw:cooked:ctrl:counter]  with k in o d s r a k (k = timeout that leaves the transport open)
       -> per op  <out>|<sess chan os alive file att bio need orphan as 0/1>|<eof,raw,cooked,ctrl,counter>|<trace joined by '>'>|<events left unconsumed>   joined by ';'
 -/
 
@@ -24,6 +26,9 @@ def excName : Exc → String
   | .hookError => "HookError"
   | .bodyError => "BodyError"
   | .closeError => "TransportCloseError"
+  | .privError => "ScrapliPrivilegeError"
+  | .baseExc => "BodyBaseException"
+  | .cancelled => "CancelledError"
 
 def outName : Outcome → String
   | .returns => "ret"
@@ -60,7 +65,7 @@ def parseHook (st : Stack) (isOpen : Bool) (s : String) : Option Hook :=
     | _ => none
 
 def parseEvK : String → Option EvK
-  | "o" => some .ok | "d" => some .drop | "s" => some .stall | "r" => some .refuse | "a" => some .authFail
+  | "o" => some .ok | "d" => some .drop | "s" => some .stall | "r" => some .refuse | "a" => some .authFail | "k" => some .stallKeep
   | _ => none
 
 def parseEv (s : String) : Option Ev :=
@@ -75,7 +80,11 @@ def parseEvs (s : String) : Option (List Ev) :=
   if s == "-" then some [] else (s.splitOn ",").mapM parseEv
 
 def parseBodyOp : Char → Option BodyOp
-  | 'x' => some .operate | 'c' => some .close | 'o' => some .open | 'r' => some .raise | _ => none
+  | 'x' => some .operate | 'c' => some .close | 'o' => some .open | 'r' => some .raise
+  -- user code in the body raising one specific class
+  | 'T' => some (.raiseExc .timeout) | 'E' => some (.raiseExc .connError) | 'N' => some (.raiseExc .notOpened)
+  | 'A' => some (.raiseExc .authFailed) | 'P' => some (.raiseExc .privError) | 'V' => some (.raiseExc .valueError)
+  | 'K' => some (.raiseExc .baseExc) | 'Z' => some (.raiseExc .cancelled) | _ => none
 
 def parseOp (s : String) : Option (Op × List Ev) :=
   match s.splitOn "/" with
@@ -108,7 +117,7 @@ def info : String :=
   let both (f : Stack → String) : String := if f .sync == f .async then f .sync else "mixed"
   let okp (f : Stack → Bool) : String := if f .sync && f .async then "ok" else "other"
   let fx := Gen.Lifecycle.facts
-  s!"close={both cl} open={okp fun st => (Gen.Lifecycle.codeOf st).openP == openOf st} enter={okp fun st => (Gen.Lifecycle.codeOf st).enterP == enterP || (Gen.Lifecycle.codeOf st).enterP == enterP2} exit={okp fun st => (Gen.Lifecycle.codeOf st).exitP == exitP} telnet={fieldsName fx.telnetOpenResets} asynctelnet={fieldsName fx.asynctelnetOpenResets} bio={b01 fx.channelCloseKeepsUserSink} pmk={b01 fx.paramikoCloseClosesSession}"
+  s!"close={both cl} open={okp fun st => (Gen.Lifecycle.codeOf st).openP == openOf st} enter={okp fun st => (Gen.Lifecycle.codeOf st).enterP == enterP || (Gen.Lifecycle.codeOf st).enterP == enterP2} exit={okp fun st => (Gen.Lifecycle.codeOf st).exitP == exitP && (Gen.Lifecycle.codeOf st).exitOn == []} telnet={fieldsName fx.telnetOpenResets} asynctelnet={fieldsName fx.asynctelnetOpenResets} bio={b01 fx.channelCloseKeepsUserSink} pmk={b01 fx.paramikoCloseClosesSession}"
 
 def handleRun (ws : List String) : Option String :=
   match ws with
